@@ -76,6 +76,14 @@ PROPS = {
         'explanation': 'termination variants and raises-clauses are proved for the functions under contract; the whole-program effect '
                        '(nothing but ProphycError leaves main) is decided by the bounded stand-in only',
     },
+    'C16': {
+        'modules': ['contracts.c16_files'],
+        'standins': ['multifile'],
+        'trusted': PYVC_TRUST + ['os.path.* / codecs.open (opaque contracts)'],
+        'assumptions': ['end-to-end equivalence with the concatenated file over directory arrangements: bounded stand-in',
+                        'two included files with the same stem are outside the property (their outputs would collide as well)'],
+        'level': 'proof',
+    },
     'C19': {
         'modules': ['contracts.c01_encode', 'contracts.c01_arrays', 'contracts.c01_wrappers', 'contracts.c04_runtime'],
         'standins': ['py_codec'],
